@@ -143,8 +143,8 @@ func cmdVerify(args []string) {
 			}
 		}
 	}
-	dischargeAll(jobs, work, 4, 15, false, 16)
-	dischargeAll(feas, work+"/canary", 2, 2, false, 16)
+	dischargeAll(jobs, work, 4, 15, false, solverWorkers())
+	dischargeAll(feas, work+"/canary", 2, 2, false, solverWorkers())
 	bad := 0
 	for _, fr := range results {
 		n, p := 0, 0
